@@ -26,10 +26,18 @@ func C01(p *Prog, r *Run) {
 			"nodeByIdMap": {"newGenomeWithNodeIdMap": "constructor", "newGenomeRand": "random constructor"},
 			"Traits":      {"newGenomeWithNodeIdMap": "constructor", "newGenomeRand": "random constructor", "Read": "readers build the genome they return"},
 		}
+		// The declaration of a new unexported helper that nothing refers to any more (every call of it was expanded
+		// in place by the source normalisation) is never executed: its stores and calls are examined in the
+		// functions they were expanded into, which are held to the tables below. A helper that is still referred to
+		// anywhere (a call the normaliser declined, a function value) is a writer of its own.
+		pinned := PinnedFuncs()
 		for _, f := range []string{"Genes", "Nodes", "nodeByIdMap", "Traits"} {
 			var bad []string
 			n := 0
 			for _, fn := range p.SrcFuncs() {
+				if p.expandedAway(fn, pinned) {
+					continue
+				}
 				for _, st := range FieldStores(fn, gf(f)) {
 					n++
 					if _, ok := allowed[f][fn.Name()]; !ok {
@@ -42,6 +50,9 @@ func C01(p *Prog, r *Run) {
 		// the index map itself is updated only by mapNodeId and the constructor that builds it
 		var bad []string
 		for _, fn := range p.SrcFuncs() {
+			if p.expandedAway(fn, pinned) {
+				continue
+			}
 			tm := NewTermer(fn)
 			Instrs(fn, func(_ *ssa.BasicBlock, _ int, in ssa.Instruction) {
 				if mu, ok := in.(*ssa.MapUpdate); ok {
@@ -57,7 +68,7 @@ func C01(p *Prog, r *Run) {
 		var users []string
 		addNode := p.Func(PkgG, "Genome.addNode")
 		for _, fn := range p.SrcFuncs() {
-			if len(CallsTo(fn, addNode)) > 0 && fn.Name() != "Read" && fn.Name() != "addNodes" && fn.Name() != "newGenomeRand" {
+			if len(CallsTo(fn, addNode)) > 0 && fn.Name() != "Read" && fn.Name() != "addNodes" && fn.Name() != "newGenomeRand" && !p.expandedAway(fn, pinned) {
 				users = append(users, FuncName(fn))
 			}
 		}
@@ -350,7 +361,9 @@ func (r *Run) c01OrderedInsertion() {
 			s = strings.ReplaceAll(s, "network.NNode", "T")
 			return s
 		}
-		T := func(v ssa.Value) string { return CanonTermWith(tm.Of(v), norm) }
+		// a call of a key function that merely selects a field of its argument stands for that field (both helpers
+		// may hand their key to one shared routine as a function: robust_c01.go, resolveProjections)
+		T := func(v ssa.Value) string { return CanonTermWith(resolveProjections(tm.Of(v)), norm) }
 		// conditions in positive canonical form (operands ordered, complements removed); the blocks are then
 		// numbered in depth-first order over the successors as the canonical condition orders them, so that
 		// `a >= b` / `b <= a` / `!(a < b)` with exchanged branches are the same step
@@ -359,7 +372,7 @@ func (r *Run) c01OrderedInsertion() {
 		for _, b := range fn.Blocks {
 			sc := append([]*ssa.BasicBlock(nil), b.Succs...)
 			if iff, ok := b.Instrs[len(b.Instrs)-1].(*ssa.If); ok {
-				c, neg := CanonCondWith(tm.Of(iff.Cond), norm)
+				c, neg := CanonCondWith(resolveProjections(tm.Of(iff.Cond)), norm)
 				if neg {
 					sc[0], sc[1] = sc[1], sc[0]
 				}
@@ -420,6 +433,9 @@ func (r *Run) c01OrderedInsertion() {
 					n, _ := calleeName(x.Common())
 					if n == "dyn" || strings.HasPrefix(n, "fmt.") {
 						continue // logging
+					}
+					if _, isProj := projectionCall(x.Common()); isProj {
+						continue // a field selection, listed (like every load) where its value is used
 					}
 					var a []string
 					for _, v := range x.Common().Args {
